@@ -249,6 +249,15 @@ Proof.
   - now left.
 Qed.
 
+Lemma on_err_lsoft h e : lsoft h = true ->
+  (on_err h e = Cont) \/ (exists x, e = Some x /\ (on_err h e = Ret (Some x) \/ on_err h e = Ret None)).
+Proof.
+  intros Hs. destruct e as [x|]; [|now left]. destruct h; try discriminate; cbn.
+  - right. exists x. split; [reflexivity|now left].
+  - now left.
+  - right. exists x. split; [reflexivity|now right].
+Qed.
+
 Definition lb (le l : bytes) : bytes := if nonempty l then l ++ le else [].
 Definition lc (l : bytes) : N := if nonempty l then 1 else 0.
 
@@ -258,7 +267,7 @@ Variable le : bytes.
 Hypothesis Hp : policy_ok p = true.
 
 Lemma pol :
-  soft (p_wl_line p) = true /\ soft (p_wl_le p) = true /\ p_api_flush p = Propagate /\
+  lsoft (p_wl_line p) = true /\ lsoft (p_wl_le p) = true /\ p_api_flush p = Propagate /\
   soft (p_hdr p) = true /\ soft (p_body p) = true /\ soft (p_ctl p) = true /\
   soft (p_pad_line p) = true /\ soft (p_pad_le p) = true /\ p_final p = Propagate.
 Proof.
@@ -289,18 +298,26 @@ Proof.
   destruct pol as (S1 & S2 & _).
   destruct (bw_write b l) as [b1 e1] eqn:E1.
   destruct (write_good _ _ _ _ _ _ G E1) as (G1 & He1 & M1).
-  destruct (on_err_soft (p_wl_line p) e1 S1) as [C1|(x & Hx & C1)]; rewrite C1 in H.
+  destruct (on_err_lsoft (p_wl_line p) e1 S1) as [C1|(x & Hx & [C1|C1])]; rewrite C1 in H.
   2:{ injection H as <- <-. cbn [fst snd]. rewrite He1 in Hx. split; [|split].
       - rewrite app_assoc. apply good_err with (W := W ++ l); [exact G1|]. rewrite Hx. discriminate.
       - intros E. rewrite E in Hx. discriminate.
       - intros _. now rewrite Hx. }
+  2:{ injection H as <- <-. cbn [fst snd]. rewrite He1 in Hx. split; [|split].
+      - rewrite app_assoc. apply good_err with (W := W ++ l); [exact G1|]. rewrite Hx. discriminate.
+      - intros E. rewrite E in Hx. discriminate.
+      - intros Hq. now elim Hq. }
   destruct (bw_write b1 le) as [b2 e2] eqn:E2.
   destruct (write_good _ _ _ _ _ _ G1 E2) as (G2 & He2 & M2). rewrite <- app_assoc in G2.
-  destruct (on_err_soft (p_wl_le p) e2 S2) as [C2|(x & Hx & C2)]; rewrite C2 in H.
+  destruct (on_err_lsoft (p_wl_le p) e2 S2) as [C2|(x & Hx & [C2|C2])]; rewrite C2 in H.
   2:{ injection H as <- <-. cbn [fst snd]. rewrite He2 in Hx. split; [|split].
       - apply good_err with (W := W ++ l ++ le); [exact G2|]. rewrite Hx. discriminate.
       - intros E. rewrite E in Hx. discriminate.
       - intros _. now rewrite Hx. }
+  2:{ injection H as <- <-. cbn [fst snd]. rewrite He2 in Hx. split; [|split].
+      - apply good_err with (W := W ++ l ++ le); [exact G2|]. rewrite Hx. discriminate.
+      - intros E. rewrite E in Hx. discriminate.
+      - intros Hq. now elim Hq. }
   assert (Hplain : forall e', e' = None -> (b2, n + 1, e') = (st', e) ->
      good fo (fst st') (W ++ l ++ le) /\
      (b_err (fst st') = None -> e = None /\ snd st' = n + 1 /\ b_err b = None) /\
